@@ -51,18 +51,18 @@ type Prim struct {
 	Addr string  `json:"addr"`
 }
 type Provider struct {
-	Class  string   `json:"class"`
-	Reply  *JCommit `json:"reply,omitempty"` // what the provider answered (filled in after the run)
-	Prims  []Prim   `json:"prims"`
+	Class string   `json:"class"`
+	Reply *JCommit `json:"reply,omitempty"` // what the provider answered (filled in after the run)
+	Prims []Prim   `json:"prims"`
 }
 type In struct {
-	Tag       string     `json:"tag"`
-	Providers []Provider `json:"providers"`
-	Order     []int      `json:"order"`    // release order of the replies
-	Deadline  bool       `json:"deadline"` // the caller's deadline passes while some provider is silent
-	Sent      *JBid      `json:"sent"`     // the signed bid this call offered (captured)
-	Req       JBid       `json:"req"`      // the request's fields
-	BidderAddr string    `json:"bidder_addr"`
+	Tag        string     `json:"tag"`
+	Providers  []Provider `json:"providers"`
+	Order      []int      `json:"order"`    // release order of the replies
+	Deadline   bool       `json:"deadline"` // the caller's deadline passes while some provider is silent
+	Sent       *JBid      `json:"sent"`     // the signed bid this call offered (captured)
+	Req        JBid       `json:"req"`      // the request's fields
+	BidderAddr string     `json:"bidder_addr"`
 }
 type JDelivered struct {
 	Commit   JCommit `json:"commit"`
@@ -91,7 +91,9 @@ func toJ(b *preconfpb.Bid) *JBid {
 	}
 	return &JBid{hx([]byte(b.TxHash)), hx([]byte(b.BidAmount)), b.BlockNumber, b.DecayStartTimestamp, b.DecayEndTimestamp, hp(b.Digest), hp(b.Signature)}
 }
-func toJC(c *preconfpb.PreConfirmation) *JCommit { return &JCommit{toJ(c.Bid), hp(c.Digest), hp(c.Signature)} }
+func toJC(c *preconfpb.PreConfirmation) *JCommit {
+	return &JCommit{toJ(c.Bid), hp(c.Digest), hp(c.Signature)}
+}
 func prim(hash, sig []byte) Prim {
 	n := append([]byte(nil), sig...)
 	if len(n) > 0 && n[len(n)-1] >= 27 && n[len(n)-1] <= 28 {
@@ -133,6 +135,7 @@ type harness struct {
 	oldBid   *preconfpb.Bid
 	captured []*preconfpb.Bid
 	rng      *vh.Rng
+	second   bool // the follow-up bid of the case: nothing it causes is recorded
 }
 
 func (s *pstream) WriteMsg(_ context.Context, m proto.Message) error {
@@ -213,6 +216,11 @@ func (s *pstream) ReadMsg(ctx context.Context, m proto.Message) error {
 		}
 	}
 	h.mu.Lock()
+	if h.second {
+		h.mu.Unlock()
+		proto.Merge(m, c)
+		return nil
+	}
 	h.in.Providers[s.idx].Reply = toJC(c)
 	prims := []Prim{}
 	if c.Bid != nil && c.Bid.Digest != nil && c.Bid.Signature != nil {
@@ -275,6 +283,7 @@ func run(in *In, rng *vh.Rng) (obs Obs) {
 		obs.Closed = true
 		return obs
 	}
+	var held []*preconfpb.PreConfirmation   // what the caller was given, and keeps
 	collect := func(d time.Duration) bool { // false when the channel is closed
 		select {
 		case c, ok := <-ch:
@@ -284,6 +293,7 @@ func run(in *In, rng *vh.Rng) (obs Obs) {
 			pa := c.ProviderAddress
 			c.ProviderAddress = nil
 			obs.Delivered = append(obs.Delivered, JDelivered{*toJC(c), hx(pa)})
+			held = append(held, c)
 		case <-time.After(d):
 		}
 		return true
@@ -310,6 +320,35 @@ func run(in *In, rng *vh.Rng) (obs Obs) {
 	}
 	if g := runtime.NumGoroutine() - before; g > 0 {
 		obs.Leaked = g
+	}
+	// the caller still holds what it was given while the node's next bid goes out through the same
+	// instance: what it holds must stay what it was given
+	if len(held) > 0 && !in.Deadline {
+		h.mu.Lock()
+		saved := append([]*preconfpb.Bid{}, h.captured...)
+		h.second = true
+		h.mu.Unlock()
+		ctx2, cancel2 := context.WithTimeout(context.Background(), time.Second)
+		if ch2, err := pc.SendBid(ctx2, hx(rng.Bytes(32)), "2000", in.Req.Block+1, in.Req.Start, in.Req.End); err == nil {
+			for open2 := true; open2; {
+				select {
+				case _, ok := <-ch2:
+					open2 = ok
+				case <-ctx2.Done():
+					open2 = false
+				}
+			}
+		}
+		cancel2()
+		time.Sleep(2 * time.Millisecond)
+		h.mu.Lock()
+		copy(h.captured, saved)
+		h.mu.Unlock()
+		for k, c := range held {
+			if k < len(obs.Delivered) {
+				obs.Delivered[k].Commit = *toJC(c)
+			}
+		}
 	}
 	h.mu.Lock()
 	defer h.mu.Unlock()
